@@ -40,9 +40,13 @@ CHECKS = {
         "holding that single instruction, any stack contents below the operands) is proved equal to a spec function written from the "
         "statement (64-bit wrapping add/sub/mul/neg, C99 truncating div/rem, total: x/0=0, INT64_MIN/-1 wraps), no trap, no fault for ALL "
         "operand values; for MUL/DIV/MOD the generic value (two 64-bit multipliers/dividers compared) is a bounded stand-in on 8-bit operands "
-        "while fault-freedom and the algebraic corner cases are full-domain. Programs (scoping, evaluation order, short circuit, Coq model): not decided.",
+        "while fault-freedom and the algebraic corner cases are full-domain. Added: float comparisons and +,- (full domain), string equality (hash abstracted), "
+        "str_substring / char_at / array_slice handlers against the documented semantics with 64-bit operands (bounded shapes); the emitted native operator functions "
+        "against the same spec functions (C02.nat.*); the bytecode generator's compile_expr on operator nodes over literal leaves: left operand's code first, then the "
+        "right operand's, then exactly the operator's opcode, and the right operand of and/or behind a conditional jump (short circuit). Programs as a whole "
+        "(scoping, statement-level control flow, the Coq model): not decided.",
    ref="DESIGN 5/C02, 4.1", note=TB + " Signed wrap-around at -O0 for + - * unary- is an assumption (listed with sites).",
-   tech="CBMC on the real vm_core_execute, one-step harness per opcode (case split over 15 operators), spec functions"),
+   tech="CBMC on the real vm_core_execute (one-step harness per opcode, case split over operators), on the real compile_expr for operator nodes, and on the emitted native operator functions; shared spec functions"),
  "C05": dict(
    cat="proof",
    text="FRAGMENT (driver control flow): nano_virt `main` and nanoc `compile_file` (entry up to the transpile call) under contracts with every callee "
